@@ -339,6 +339,13 @@ def cmp_conds(subj_term, pred_names):
         names = frozenset(pred_names)
         lit = '(%s::MAX < %s)' % (subj_term[1][len('narrow::'):], S.show(subj_term[2][0]))
         return {frozenset(['Ok']): [(lit, False)], frozenset(['Err']): [(lit, True)]}.get(names)
+    if subj_term is not None and subj_term[0] == 'call' and subj_term[1] in ('std::slice::get', 'core::slice::get') and len(subj_term[2]) == 2 \
+            and subj_term[2][1] is not None and (subj_term[2][1][0] == 'path' or (subj_term[2][1][0] == 'struct' and subj_term[2][1][1] == 'std::ops::Range')):
+        # `buf.get(a..b)` is Some exactly when the whole range lies inside the slice: b <= len (a <= b for a constant range)
+        rng = subj_term[2][1]
+        end = S.show(rng) + '.end' if rng[0] == 'path' else S.show(dict(rng[2]).get('end'))
+        lit = '(std::slice::len(%s) < %s)' % (S.show(subj_term[2][0]), end)
+        return {frozenset(['Some']): [(lit, False)], frozenset(['None']): [(lit, True)]}.get(frozenset(pred_names))
     if subj_term is not None and subj_term[0] == 'call' and subj_term[1] in ENTRY_FNS and len(subj_term[2]) == 2:
         # `match m.entry(k) { Occupied(_) => .., Vacant(_) => .. }` asks whether the key is present
         lit = '%s::contains_key(%s, %s)' % (subj_term[1].rsplit('::', 1)[0], S.show(subj_term[2][0]), S.show(subj_term[2][1]))
